@@ -1,8 +1,293 @@
-import NasdaqModel.Lemmas.PyLemmas
-import NasdaqModel.Model.Fix
+import NasdaqModel.Lemmas.FixLemmas
+/-
+C13 — the FIX tag=value codec round-trips messages, nested repeating groups included.
+Only property theorems (`C13_*`), the predicates they are stated with, and non-vacuity examples live here;
+the lemmas are in Lemmas/FixLemmas.lean, the model in Model/Fix.lean.
+-/
 namespace NasdaqModel.Props.C13
 open NasdaqModel Py Fix
 
-theorem C13_stub : joinSOH [] = [] := rfl
+/-- the dictionary of a message class: all tags of header, body and trailer (nested groups included) pairwise distinct -/
+def wfDef (d : MsgDef) : Bool := decide (deepTagsL (d.hdr ++ d.body ++ d.trl)).Nodup
+
+/-- a message built from valid values: every segment holds values its entries accept (text ASCII without SOH,
+    group instances with distinct known keys that contain the group's first entry), at least one field is set -/
+def wfMsg (d : MsgDef) (m : Msg) : Bool :=
+  wfSeg d.hdr m.hdr && wfSeg d.body m.body && wfSeg d.trl m.trl &&
+  !(m.hdr.isEmpty && m.body.isEmpty && m.trl.isEmpty)
+
+/-- the decoded form of `m`: top-level segments in wire (= assignment) order, group instances in dictionary order -/
+def canonMsg (d : MsgDef) (m : Msg) : Msg :=
+  { hdr := canonSeg d.hdr m.hdr, body := canonSeg d.body m.body, trl := canonSeg d.trl m.trl }
+
+private theorem wfDef_parts {d : MsgDef} (h : wfDef d = true) :
+    (deepTagsL d.hdr).Nodup ∧ (deepTagsL d.body).Nodup ∧ (deepTagsL d.trl).Nodup ∧
+    (∀ t ∈ deepTagsL d.body, t ∉ deepTagsL d.hdr) ∧ (∀ t ∈ deepTagsL d.trl, t ∉ deepTagsL d.hdr) ∧
+    (∀ t ∈ deepTagsL d.trl, t ∉ deepTagsL d.body) := by
+  simp only [wfDef, decide_eq_true_eq, deepTagsL_append] at h
+  rw [List.nodup_append] at h
+  obtain ⟨h1, h2, h3⟩ := h
+  rw [List.nodup_append] at h1
+  obtain ⟨h11, h12, h13⟩ := h1
+  refine ⟨h11, h12, h2, ?_, ?_, ?_⟩
+  · intro t ht hh; exact h13 t hh t ht rfl
+  · intro t ht hh; exact h3 t (by simp [hh]) t ht rfl
+  · intro t ht hh; exact h3 t (by simp [hh]) t ht rfl
+
+/-- the bytes of a well-formed message are its fields, each followed by SOH: header, body, trailer -/
+private theorem encMsg_wire {d : MsgDef} {m : Msg} {bs : Bytes} (hd : wfDef d = true) (hm : wfMsg d m = true)
+    (henc : encMsg d m = .ok bs) :
+    ∃ fh fb ft, encSegFields d.hdr m.hdr = .ok fh ∧ encSegFields d.body m.body = .ok fb ∧
+      encSegFields d.trl m.trl = .ok ft ∧ bs = termAll fh ++ termAll fb ++ termAll ft := by
+  obtain ⟨nh, nb, nt, _, _, _⟩ := wfDef_parts hd
+  simp only [wfMsg, Bool.and_eq_true, Bool.not_eq_true', Bool.and_eq_false_iff] at hm
+  obtain ⟨⟨⟨wh, wb⟩, wt⟩, hne⟩ := hm
+  simp only [encMsg, encSeg] at henc
+  obtain ⟨h, hh, henc⟩ := bind_ok henc
+  obtain ⟨fh, hfh, hh⟩ := bind_ok hh
+  obtain ⟨b, hb, henc⟩ := bind_ok henc
+  obtain ⟨fb, hfb, hb⟩ := bind_ok hb
+  obtain ⟨t, ht, henc⟩ := bind_ok henc
+  obtain ⟨ft, hft, ht⟩ := bind_ok ht
+  simp only [pure_eq_ok] at hh hb ht henc
+  injection hh with hh; injection hb with hb; injection ht with ht; injection henc with henc
+  subst hh; subst hb; subst ht
+  obtain ⟨gh, eh⟩ := encSegFields_good d.hdr nh m.hdr fh wh hfh
+  obtain ⟨gb, eb⟩ := encSegFields_good d.body nb m.body fb wb hfb
+  obtain ⟨gt, et⟩ := encSegFields_good d.trl nt m.trl ft wt hft
+  refine ⟨fh, fb, ft, hfh, hfb, hft, ?_⟩
+  rw [← henc, assemble _ _ _ (joinSOH_nil_or_good fh gh) (joinSOH_nil_or_good fb gb) (joinSOH_nil_or_good ft gt),
+    termSeg_joinSOH fh gh, termSeg_joinSOH fb gb, termSeg_joinSOH ft gt]
+  intro ⟨a1, a2, a3⟩
+  have e1 : m.hdr = [] := eh.mp ((joinSOH_eq_nil_iff fh (fun x hx => (gh x hx).1)).mp a1)
+  have e2 : m.body = [] := eb.mp ((joinSOH_eq_nil_iff fb (fun x hx => (gb x hx).1)).mp a2)
+  have e3 : m.trl = [] := et.mp ((joinSOH_eq_nil_iff ft (fun x hx => (gt x hx).1)).mp a3)
+  simp [e1, e2, e3] at hne
+
+/-- what follows a segment on the wire begins with a tag of a later segment -/
+private theorem starts_of_fields {es : List Entry} {s : Seg} {fbs : List Bytes} {P : Nat → Prop} {rest : Bytes}
+    (hwf : wfSeg es s = true) (henc : encSegFields es s = .ok fbs) (hP : ∀ t ∈ deepTagsL es, P t)
+    (hrest : Starts P rest) : Starts P (termAll fbs ++ rest) := by
+  simp only [wfSeg, Bool.and_eq_true, decide_eq_true_eq] at hwf
+  obtain ⟨fs, h1, h2, _, _⟩ := encSegFields_items es s fbs hwf.1 henc
+  have hw : termAll fbs = wireItems fs := by simp [wireItems, h1]
+  rw [hw]
+  apply starts_wireItems fs rest (fun x hx => (h2 x hx).2.2) _ hrest
+  intro x hx
+  exact hP _ (deepTags_sub_deepTagsL (h2 x hx).1 _ (tag_mem_deepTags _))
+
+/-- **Round trip.** Decoding the bytes of a well-formed message through the base class yields the class registered for
+    its MsgType, consumes every byte and returns the message in canonical form (same field values; group instances in
+    dictionary order) — for every dictionary with distinct tags, any nesting depth, any assignment order. -/
+theorem C13_roundtrip (reg : List MsgDef) (d : MsgDef) (m : Msg) (bs : Bytes)
+    (hd : wfDef d = true) (hm : wfMsg d m = true) (henc : encMsg d m = .ok bs)
+    (hty : getMsgType bs = .ok d.type) (hreg : lookupReg reg d.type = some d) :
+    decodeMsg reg bs = .ok (bs.length, d, canonMsg d m) := by
+  obtain ⟨fh, fb, ft, hfh, hfb, hft, rfl⟩ := encMsg_wire hd hm henc
+  obtain ⟨nh, nb, nt, dbh, dth, dtb⟩ := wfDef_parts hd
+  simp only [wfMsg, Bool.and_eq_true] at hm
+  obtain ⟨⟨⟨wh, wb⟩, wt⟩, _⟩ := hm
+  simp only [decodeMsg, hty, ok_bind, hreg, msgFromBytes]
+  -- header
+  have s1 : segFromBytes (tableOf d.hdr) (termAll fh ++ (termAll fb ++ termAll ft))
+      = .ok ((termAll fh).length, canonSeg d.hdr m.hdr) := by
+    apply segFromBytes_seg d.hdr nh m.hdr fh wh hfh
+    apply starts_of_fields wb hfb dbh
+    have := starts_of_fields (rest := []) wt hft dth (Or.inl rfl)
+    simpa using this
+  have s2 : segFromBytes (tableOf d.body) (termAll fb ++ termAll ft)
+      = .ok ((termAll fb).length, canonSeg d.body m.body) := by
+    apply segFromBytes_seg d.body nb m.body fb wb hfb
+    have := starts_of_fields (rest := []) wt hft dtb (Or.inl rfl)
+    simpa using this
+  have s3 : segFromBytes (tableOf d.trl) (termAll ft) = .ok ((termAll ft).length, canonSeg d.trl m.trl) := by
+    have := segFromBytes_seg d.trl nt m.trl ft wt hft [] (Or.inl rfl)
+    simpa using this
+  rw [List.append_assoc, s1]
+  simp only [ok_bind, List.drop_left', s2, s3, pure_eq_ok, canonMsg, List.length_append, Nat.add_assoc]
+
+/-- **Re-encode.** The decoded message encodes to the same bytes as the original (any assignment order). -/
+theorem C13_reencode (d : MsgDef) (m : Msg) (hd : wfDef d = true) : encMsg d (canonMsg d m) = encMsg d m := by
+  obtain ⟨nh, nb, nt, _, _, _⟩ := wfDef_parts hd
+  simp only [encMsg, encSeg, canonMsg, encSegFields_canon _ nh, encSegFields_canon _ nb, encSegFields_canon _ nt]
+
+/-- **Equality (partial).**  Full statement wanted: `pyEq (canonMsg d m) m = true` for every well-formed `m`
+    (the decoded message compares `==` to the original).  That is false of the code as it is: see
+    `Witness.C13.C13_witness_eq_order` — `OrderedDict.__eq__` is order sensitive.
+    Proved here under the extra hypothesis that every group instance was assigned in dictionary order, stated as
+    "canonicalising changes nothing" (`canonMsg d m = m`). -/
+theorem C13_eq_original_partial (d : MsgDef) (m : Msg) (hord : canonMsg d m = m) : pyEq (canonMsg d m) m = true := by
+  rw [hord]; exact pyEq_refl m
+
+/-- **Class.** Whatever `decodeMsg` returns for the bytes of a well-formed message is the class registered for its type. -/
+theorem C13_class (reg : List MsgDef) (d : MsgDef) (m : Msg) (bs : Bytes)
+    (hd : wfDef d = true) (hm : wfMsg d m = true) (henc : encMsg d m = .ok bs)
+    (hty : getMsgType bs = .ok d.type) (hreg : lookupReg reg d.type = some d)
+    (n : Nat) (d' : MsgDef) (m' : Msg) (hdec : decodeMsg reg bs = .ok (n, d', m')) :
+    d' = d ∧ n = bs.length := by
+  rw [C13_roundtrip reg d m bs hd hm henc hty hreg] at hdec
+  injection hdec with h
+  injection h with h1 h2
+  injection h2 with h2 h3
+  exact ⟨h2.symm, h1.symm⟩
+
+/-- **MsgType.** When `MsgType` is the first header field assigned (so the bytes begin with `35=`), `get_msg_type`
+    finds the class's own type: the hypothesis `hty` of `C13_roundtrip` holds. -/
+theorem C13_msgtype_first (d : MsgDef) (m : Msg) (bs : Bytes)
+    (hd : wfDef d = true) (hm : wfMsg d m = true) (henc : encMsg d m = .ok bs)
+    (r : Bool) (rest : Seg) (hfirst : m.hdr = (35, .str d.type) :: rest)
+    (hentry : lookupE d.hdr 35 = some (.field 35 .string r)) :
+    getMsgType bs = .ok d.type := by
+  obtain ⟨fh, fb, ft, hfh, _, _, rfl⟩ := encMsg_wire hd hm henc
+  simp only [wfMsg, Bool.and_eq_true] at hm
+  obtain ⟨⟨⟨wh, _⟩, _⟩, _⟩ := hm
+  rw [hfirst] at wh hfh
+  simp only [wfSeg, wfFields, hentry, wfVal, wfPrim, Bool.and_eq_true] at wh
+  obtain ⟨ha, h1⟩ := wfText_iff wh.1.1
+  obtain ⟨b, bs', hb, _, rfl⟩ := mapE_cons_ok hfh
+  simp only [hentry, encEntry, tyToBytes, encodeAscii, ha, if_true, ok_bind, pure_eq_ok] at hb
+  injection hb with hb
+  subst hb
+  have : termAll (fieldBytes 35 d.type :: bs') ++ termAll fb ++ termAll ft
+      = [51, 53, 61] ++ d.type ++ 1 :: (termAll bs' ++ termAll fb ++ termAll ft) := by
+    rw [termAll_cons]
+    have : natDigits 35 = [51, 53] := by decide
+    simp [fieldBytes, this]
+  rw [this]
+  exact getMsgType_first d.type _ h1 ha
+
+/-- **Group layout.**  A repeating group is written as its count field, whose value is the number of instances in
+    decimal, followed by the instances; every instance is exactly its present fields in *dictionary* order
+    (`itemTags fs` = the group's entries filtered by presence), each field followed by SOH. -/
+theorem C13_group_layout (t : Nat) (sub : List Entry) (r : Bool) (insts : List Seg) (b : Bytes)
+    (hne : ∀ inst ∈ insts, firstPresent sub inst = true)
+    (henc : encEntry (.group t sub r) (.grp insts) = .ok b) :
+    ∃ fss : List (List Item),
+      b ++ [1] = fieldBytes t (natDigits insts.length) ++ 1 :: (fss.map wireItems).flatten ∧
+      All₂ (fun inst fs =>
+              itemTags fs = (sub.filter (fun e => hasKey inst e.tag)).map Entry.tag ∧
+              ∀ x ∈ fs, x.1 ∈ sub ∧ lookupV inst x.1.tag = some x.2.1 ∧ encEntry x.1 x.2.1 = .ok x.2.2) insts fss := by
+  simp only [encEntry] at henc
+  obtain ⟨gs, hgs, h⟩ := bind_ok henc
+  simp only [pure_eq_ok] at h
+  injection h with h
+  subst h
+  have hall := mapE_all₂ hgs
+  have key : ∀ {is : List Seg} {gl : List Bytes},
+      All₂ (fun a g => (encGroupFields sub a >>= fun fs => pure (joinSOH fs)) = Except.ok g) is gl →
+      (∀ inst ∈ is, firstPresent sub inst = true) →
+      ∃ fss : List (List Item), termAll gl = (fss.map wireItems).flatten ∧
+        All₂ (fun inst fs =>
+              itemTags fs = (sub.filter (fun e => hasKey inst e.tag)).map Entry.tag ∧
+              ∀ x ∈ fs, x.1 ∈ sub ∧ lookupV inst x.1.tag = some x.2.1 ∧ encEntry x.1 x.2.1 = .ok x.2.2) is fss := by
+    intro is gl hal
+    induction hal with
+    | nil => intro _; exact ⟨[], by simp [termAll], .nil⟩
+    | @cons inst g insts' gs' hg _ ih =>
+      intro hfp
+      obtain ⟨fss, h1, h2⟩ := ih (fun i hi => hfp i (by simp [hi]))
+      obtain ⟨fbs, hf, hh⟩ := bind_ok hg
+      simp only [pure_eq_ok] at hh
+      injection hh with hh
+      subst hh
+      obtain ⟨fs, k1, k2, k3⟩ := encGroupFields_layout inst sub fbs hf
+      have hfirst := hfp inst (by simp)
+      have hne : fbs ≠ [] := by
+        cases sub with
+        | nil => simp [firstPresent] at hfirst
+        | cons e1 sub' =>
+          simp only [firstPresent] at hfirst
+          simp only [List.filter_cons, hfirst, if_true, List.map_cons] at k3
+          intro hnil
+          rw [hnil] at k1
+          simp at k1
+          rw [k1] at k3
+          simp [itemTags] at k3
+      refine ⟨fs :: fss, ?_, .cons ⟨k3, k2⟩ h2⟩
+      rw [termAll_cons, List.map_cons, List.flatten_cons, ← h1]
+      cases fbs with
+      | nil => exact absurd rfl hne
+      | cons a l =>
+        have := joinSOH_term a l
+        rw [show joinSOH (a :: l) ++ 1 :: termAll gs' = (joinSOH (a :: l) ++ [1]) ++ termAll gs' by simp, this]
+        simp [wireItems, k1]
+  obtain ⟨fss, h1, h2⟩ := key hall hne
+  refine ⟨fss, ?_, h2⟩
+  rw [joinSOH_term, termAll_cons, h1, intStr_natCast]
+
+/-- **Assignment order is irrelevant.**  Two group values whose instances hold the same items, assigned in any
+    order, encode to the same bytes. -/
+theorem C13_group_order_irrelevant (t : Nat) (sub : List Entry) (r : Bool) (insts insts' : List Seg)
+    (h : All₂ (fun a b => a.Perm b ∧ (keysOf b).Nodup) insts' insts) :
+    encEntry (.group t sub r) (.grp insts') = encEntry (.group t sub r) (.grp insts) := by
+  have hlen : insts'.length = insts.length := by
+    induction h with
+    | nil => rfl
+    | cons _ _ ih => simp [ih]
+  have hmap : mapE (fun inst => do let fs ← encGroupFields sub inst; pure (joinSOH fs)) insts'
+      = mapE (fun inst => do let fs ← encGroupFields sub inst; pure (joinSOH fs)) insts := by
+    induction h with
+    | nil => rfl
+    | cons hab _ ih =>
+      simp only [mapE] at ih ⊢
+      rw [encGroupFields_perm sub hab.1 hab.2, ih (by simpa using hlen)]
+  simp only [encEntry, hmap, hlen]
+
+/-- **Encoding never raises** on a message built from valid values. -/
+theorem C13_encodes (d : MsgDef) (m : Msg) (hd : wfDef d = true) (hm : wfMsg d m = true) : ∃ bs, encMsg d m = .ok bs := by
+  obtain ⟨nh, nb, nt, _, _, _⟩ := wfDef_parts hd
+  simp only [wfMsg, wfSeg, Bool.and_eq_true] at hm
+  obtain ⟨⟨⟨wh, wb⟩, wt⟩, _⟩ := hm
+  obtain ⟨fh, hfh⟩ := encSegFields_ok d.hdr nh m.hdr wh.1
+  obtain ⟨fb, hfb⟩ := encSegFields_ok d.body nb m.body wb.1
+  obtain ⟨ft, hft⟩ := encSegFields_ok d.trl nt m.trl wt.1
+  exact ⟨_, by simp only [encMsg, encSeg, hfh, hfb, hft, ok_bind, pure_eq_ok]; rfl⟩
+
+/-- **The statement of C13 in one piece** (for a message whose first assigned header field is MsgType): it encodes;
+    the bytes decode to the registered class, every byte consumed, to the canonical form of the message; that form
+    re-encodes to the same bytes. -/
+theorem C13_statement (reg : List MsgDef) (d : MsgDef) (m : Msg) (hd : wfDef d = true) (hm : wfMsg d m = true)
+    (r : Bool) (rest : Seg) (hfirst : m.hdr = (35, .str d.type) :: rest)
+    (hentry : lookupE d.hdr 35 = some (.field 35 .string r)) (hreg : lookupReg reg d.type = some d) :
+    ∃ bs, encMsg d m = .ok bs ∧ decodeMsg reg bs = .ok (bs.length, d, canonMsg d m) ∧
+      encMsg d (canonMsg d m) = .ok bs := by
+  obtain ⟨bs, henc⟩ := C13_encodes d m hd hm
+  have hty := C13_msgtype_first d m bs hd hm henc r rest hfirst hentry
+  exact ⟨bs, henc, C13_roundtrip reg d m bs hd hm henc hty hreg, by rw [C13_reencode d m hd]; exact henc⟩
+
+/-! ### non-vacuity: a dictionary with a group inside a group, a message assigned out of dictionary order -/
+
+/-- header MsgType(35) + 49; body: 58 string, group 453 { 448 string, 447 char, group 802 { 523 string, 803 int } }, 44 float;
+    trailer 93 int -/
+def exDef : MsgDef :=
+  { name := [68], type := [68],
+    hdr := [.field 35 .string true, .field 49 .string false],
+    body := [.field 58 .string false,
+             .group 453 [.field 448 .string true, .field 447 .char false,
+                         .group 802 [.field 523 .string true, .field 803 .int false] false] false,
+             .field 44 .float false],
+    trl := [.field 93 .int false] }
+
+/-- `44` assigned before the group, instances assigned out of order, an empty string, a string containing `=`, a negative
+    integer, an instance with an empty nested group and one with two nested instances -/
+def exMsg : Msg :=
+  { hdr := [(35, .str [68]), (49, .str [])],
+    body := [(44, .flt [45, 49, 46, 53]),
+             (453, .grp [[(447, .str [88]), (448, .str [97, 61, 98])],
+                         [(802, .grp [[(803, .int (-7)), (523, .str [113])], [(523, .str [])]]), (448, .str [99])],
+                         [(448, .str [100]), (802, .grp [])]])],
+    trl := [(93, .int 0)] }
+
+example : wfDef exDef = true := by decide
+example : wfMsg exDef exMsg = true := by decide
+example : wfDef witnessDef = true ∧ wfMsg witnessDef witnessMsg = true := by decide
+/-- the hypothesis of `C13_eq_original_partial` is satisfiable by a message with a group … -/
+example : canonMsg witnessDef { witnessMsg with body := [(100, .grp [[(101, .int 1), (102, .str [97])]])] }
+    = { witnessMsg with body := [(100, .grp [[(101, .int 1), (102, .str [97])]])] } := by rfl
+/-- … and it really encodes to the documented layout: `35=D|49=|44=-1.5|453=3|448=a=b|447=X|448=c|802=2|523=q|803=-7|523=|448=d|802=0|93=0|` -/
+example : encMsg exDef exMsg = .ok
+    [51,53,61,68,1, 52,57,61,1, 52,52,61,45,49,46,53,1, 52,53,51,61,51,1, 52,52,56,61,97,61,98,1, 52,52,55,61,88,1,
+     52,52,56,61,99,1, 56,48,50,61,50,1, 53,50,51,61,113,1, 56,48,51,61,45,55,1, 53,50,51,61,1,
+     52,52,56,61,100,1, 56,48,50,61,48,1, 57,51,61,48,1] := by decide +kernel
 
 end NasdaqModel.Props.C13
